@@ -32,7 +32,7 @@ def _sorted_distinct(rng, n):
             return v
 
 
-def gen_params(name: str, rng) -> dict:
+def gen_params(name: str, rng, vertical: bool = False) -> dict:
     """A valid parameterisation of the term (both directions, degenerate vertical edges, infinite shoulders)."""
     h = heights(rng)
     if name in ("Arc", "Ramp", "Concave"):
@@ -43,6 +43,8 @@ def gen_params(name: str, rng) -> dict:
         return {k: a, "end": b, "height": h}
     if name in ("SShape", "ZShape"):
         a, b = _sorted_distinct(rng, 2)
+        if vertical and rng.random() < 0.12:
+            b = a  # degenerate vertical edge: a step at start
         return {"start": a, "end": b, "height": h}
     if name in ("Rectangle", "SemiEllipse"):
         a, b = _sorted_distinct(rng, 2)
@@ -104,8 +106,13 @@ def gen_params(name: str, rng) -> dict:
         return {"bottom_left": a, "top_left": b, "top_right": c, "bottom_right": d, "height": h}
     if name == "PiShape":
         a, b, c, d = _sorted_distinct(rng, 4)
-        if rng.random() < 0.2:
+        k = rng.random()
+        if k < 0.2:
             c = b
+        elif vertical and k < 0.3:
+            d = c  # vertical right edge
+        elif vertical and k < 0.4:
+            b = a  # vertical left edge
         return {"bottom_left": a, "top_left": b, "top_right": c, "bottom_right": d, "height": h}
     raise KeyError(name)
 
